@@ -32,9 +32,26 @@ template <class G> static DOut dcall(const G& g, int form, bool arcmode, double 
   DOut o; o.lat2 = o.lon2 = o.azi2 = o.s12 = o.m12 = o.M12 = o.M21 = o.S12 = SENT;
   if (form == 0) o.a12 = g.GenDirect(lat1, lon1, azi1, arcmode, len, MASK, o.lat2, o.lon2, o.azi2, o.s12, o.m12, o.M12, o.M21, o.S12);
   else if (form == 1) { auto l = g.Line(lat1, lon1, azi1, Geodesic::ALL); o.a12 = l.GenPosition(arcmode, len, MASK, o.lat2, o.lon2, o.azi2, o.s12, o.m12, o.M12, o.M21, o.S12); }
-  else {
+  else if (form == 2) {
     auto l = arcmode ? g.ArcDirectLine(lat1, lon1, azi1, len, Geodesic::ALL) : g.DirectLine(lat1, lon1, azi1, len, Geodesic::ALL);
     o.a12 = l.GenPosition(arcmode, arcmode ? l.Arc() : l.Distance(), MASK, o.lat2, o.lon2, o.azi2, o.s12, o.m12, o.M12, o.M21, o.S12);
+  }
+  else if (form == 3) {
+    // each quantity requested ON ITS OWN, as the convenience overloads (Direct(..., m12), Direct(..., M12, M21), ...) do
+    double t;
+    o.a12 = g.GenDirect(lat1, lon1, azi1, arcmode, len, Geodesic::LATITUDE | Geodesic::LONGITUDE | Geodesic::AZIMUTH | Geodesic::DISTANCE, o.lat2, o.lon2, o.azi2, o.s12, t, t, t, t);
+    g.GenDirect(lat1, lon1, azi1, arcmode, len, Geodesic::REDUCEDLENGTH, t, t, t, t, o.m12, t, t, t);
+    g.GenDirect(lat1, lon1, azi1, arcmode, len, Geodesic::GEODESICSCALE, t, t, t, t, t, o.M12, o.M21, t);
+    g.GenDirect(lat1, lon1, azi1, arcmode, len, Geodesic::AREA, t, t, t, t, t, t, t, o.S12);
+  }
+  else {
+    // a line created with just the capability needed, asked for just that quantity
+    double t;
+    { auto l = g.Line(lat1, lon1, azi1, Geodesic::LATITUDE | Geodesic::LONGITUDE | Geodesic::AZIMUTH | Geodesic::DISTANCE | Geodesic::DISTANCE_IN);
+      o.a12 = l.GenPosition(arcmode, len, Geodesic::LATITUDE | Geodesic::LONGITUDE | Geodesic::AZIMUTH | Geodesic::DISTANCE, o.lat2, o.lon2, o.azi2, o.s12, t, t, t, t); }
+    { auto l = g.Line(lat1, lon1, azi1, Geodesic::REDUCEDLENGTH | Geodesic::DISTANCE_IN); l.GenPosition(arcmode, len, Geodesic::REDUCEDLENGTH, t, t, t, t, o.m12, t, t, t); }
+    { auto l = g.Line(lat1, lon1, azi1, Geodesic::GEODESICSCALE | Geodesic::DISTANCE_IN); l.GenPosition(arcmode, len, Geodesic::GEODESICSCALE, t, t, t, t, t, o.M12, o.M21, t); }
+    { auto l = g.Line(lat1, lon1, azi1, Geodesic::AREA | Geodesic::DISTANCE_IN); l.GenPosition(arcmode, len, Geodesic::AREA, t, t, t, t, t, t, t, o.S12); }
   }
   return o;
 }
@@ -113,7 +130,7 @@ int main(int argc, char** argv) {
   ctx.bound("direct.ellipsoids", T ? "all 21 of models/geod_tables.hpp" : "8: wgs84, f=+-0.02, f=+-0.1, b/a in {1/2, 2, 1/16}");
   ctx.bound("direct.lat1", geodlat::direct_lat_text()); ctx.bound("direct.azi1", geodlat::direct_azi_text()); ctx.bound("direct.length", geodlat::direct_len_text(T));
   ctx.bound("direct.lon1", "179.5");
-  ctx.bound("direct.config", "{series (|f|<=0.2), exact, exact=true} x {GenDirect, Line+GenPosition, (Arc)DirectLine+GenPosition at s13/a13}, outmask with REDUCEDLENGTH|GEODESICSCALE|AREA");
+  ctx.bound("direct.config", "{series (|f|<=0.2), exact, exact=true} x {GenDirect, Line+GenPosition, (Arc)DirectLine+GenPosition at s13/a13} with outmask REDUCEDLENGTH|GEODESICSCALE|AREA, + GenDirect and minimal-capability Line+GenPosition with each of m12 / (M12,M21) / S12 requested on its own");
   ctx.bound("direct.split", T ? "addition rules at t in {0.1,0.5,0.9,1.3} of every distance-specified line with 1e-4 Q <= |s13| <= 8 Q" : "addition rules at t = 0.5 of every distance-specified line with 1e-4 Q <= |s13| <= 8 Q");
   const double lon1 = 179.5;
   for (size_t ei = 0; ei < ells.size(); ++ei) {
@@ -126,7 +143,8 @@ int main(int argc, char** argv) {
       const double lat1 = lats[li], azi1 = azis[ai];
       struct Len { bool arc; double v; ld s; Point<ld> p; ld a12deg; };
       std::vector<Len> L;
-      for (auto& ls : lspec) { if (!T && !ls.quick) continue; Len l; l.arc = ls.arc; l.v = ls.arc ? ls.v : ls.v * (double)E.Q; l.s = ls.arc ? geod_ode::arc_to_dist<ld>(E.e, lat1, azi1, l.v) : (ld)l.v; L.push_back(l); }
+      for (auto& ls : lspec) { if (!T && !ls.quick) continue;
+        if (std::fabs(std::log2(1 - E.f)) > 4.5 && (ls.arc ? std::fabs(ls.v) > 180 : std::fabs(ls.v) > 2.1)) continue;   // b/a = 1/64, 64: single-circuit lengths only (oracle cost) Len l; l.arc = ls.arc; l.v = ls.arc ? ls.v : ls.v * (double)E.Q; l.s = ls.arc ? geod_ode::arc_to_dist<ld>(E.e, lat1, azi1, l.v) : (ld)l.v; L.push_back(l); }
       std::vector<size_t> ord(L.size()); for (size_t i = 0; i < ord.size(); ++i) ord[i] = i;
       std::stable_sort(ord.begin(), ord.end(), [&](size_t x, size_t y) { return fabsl(L[x].s) < fabsl(L[y].s); });
       for (int dir = 1; dir >= -1; dir -= 2) {
@@ -148,7 +166,7 @@ int main(int argc, char** argv) {
           if (sv == 0 && !E.series) continue;
           const ld cond = std::max<ld>(std::max<ld>(1, fabsl(p.m12) / E.e.a), std::max(fabsl(p.M12), fabsl(p.M21)));     // growth of the Jacobi fields (> 1 on prolate ellipsoids)
           const ld tm = KM_m[sv] * tolpos(E, sv) * sc * cond, tM = KM_M[sv] * tolpos(E, sv) * sc * cond * kappa(E) / E.e.a, tS = tolS12(E, sv, sc, hypotl(p.r[0], p.r[1])); const char* svn = svname(sv);
-          for (int form = 0; form < 3; ++form) {
+          for (int form = 0; form < 5; ++form) {
             Ctx::Case cs(ctx);
             DOut o = S.d(sv, form, l.arc, lat1, lon1, azi1, l.v); ++ncalls;
             auto key = [&](const char* k2) { return "e" + std::to_string(ei) + "/la" + std::to_string(li) + "/az" + std::to_string(ai) + "/L" + std::to_string(k) + "/" + svn + "/f" + std::to_string(form) + "/" + k2; };
